@@ -49,6 +49,24 @@ Example c05_example_empty_state :
   cnt live (insts s) = 0 /\ routine s = None.
 Proof. vm_compute. repeat split; reflexivity. Qed.
 
+(* a root context cancelled by its OWNER (event ECancelRoot; the container is not told and keeps pointing at it until the
+   next SetRoutine / SetState / RestartRoutine / WaitExited section forgets it): every instance context derives from
+   the root that was current when the instance was started and is cancelled with it, so in every reachable state a live
+   instance derives from a root that has not been cancelled, and that root is the container's current context *)
+Theorem c05_live_instance_root_alive : forall variant cmp ncb script es i x,
+  let s := run repaired (init variant cmp ncb script) es in
+  nth_error (insts s) i = Some x -> icanc x = false -> root_dead s (iroot x) = false /\ root_dead s (kctx s) = false.
+Proof. exact live_instance_root_alive. Qed.
+Print Assumptions c05_live_instance_root_alive.
+
+(* non-vacuity: the owner cancels the container's context: no instance is live afterwards, the container still holds the
+   cancelled context, and RestartRoutine then forgets it and starts nothing *)
+Example c05_example_owner_cancels :
+  let s := run repaired (init false 1 1 None) [ESetCtx 1 false; ESetRoutine 1; EProceed 0 true; ECancelRoot 1] in
+  cnt live (insts s) = 0 /\ in_user (geti s 0) = true /\ kctx s = 1 /\
+  kctx (fst (restart_routine repaired s)) = 0 /\ length (insts (fst (restart_routine repaired s))) = 1 /\ snd (restart_routine repaired s) = false.
+Proof. vm_compute. repeat split; reflexivity. Qed.
+
 (* Monitors and model, for EVERY event list: whenever the schedule-level step function of Routine/Spec.v accepts the
    events, the monitors (clauses 5/1: a live instance seen inside the user function is the newest one, 5/2: it exists
    only if context, routine and state are set, 5/3: it carries the current root context and state; together with those
